@@ -13,7 +13,7 @@ use std::rc::Rc;
 pub static ENGINE: Engine = Engine {
     prop: "C02",
     level: "model_checking",
-    rule: "oracle = canon(f), a reduced ordered diagram built from the expected truth table with plain BDD::Choice values (no rsbdd function). (1) the complete API closure of C03 and the complete evaluator closure of C01 (k=2,3: every operator incl. quantifier lists and counting on every operand tuple): every transition result must be literally == canon, hash-equal, ordered and reduced, is_true/is_false iff valid/unsatisfiable; (2) every f in F_4 (65536) along seven construction routes (Shannon/ite top-down and bottom-up, DNF, CNF, double negation, xor twice, rename-and-quantify detour) in a shared and in a fresh environment: all routes == canon(f), pairwise ==, equal across environments; (3) `==` between diagrams of two environments holds iff the truth tables agree, for all 256x256 pairs; (4) outputs of model / retain / exists / all / aln / amn / exn on every f in F_4 are canonical for the function they denote. Thorough tier additionally: COMPLETE operand pairs over F_4 (2^16 x 2^16) for each of the API's seven binary connectives, result compared structurally with canon of the pointwise table; every unary/binary connective on all of F_3 in a BDDEnv<NamedSymbol> whose ids agree in their low 32 bits (both tiers). distinct = distinct (route or operator, operands)",
+    rule: "oracle = canon(f), a reduced ordered diagram built from the expected truth table with plain BDD::Choice values (no rsbdd function). (1) the complete API closure of C03 and the complete evaluator closure of C01 (k=2,3: every operator incl. quantifier lists and counting on every operand tuple): every transition result must be literally == canon, hash-equal, ordered and reduced, is_true/is_false iff valid/unsatisfiable; (2) every f in F_4 (65536) along seven construction routes (Shannon/ite top-down and bottom-up, DNF, CNF, double negation, xor twice, rename-and-quantify detour) in a shared and in a fresh environment: all routes == canon(f), pairwise ==, equal across environments; (3) `==` between diagrams of two environments holds iff the truth tables agree, for all 256x256 pairs; (4) outputs of model / retain / exists / all / aln / amn / exn on every f in F_4 are canonical for the function they denote. One representative of each of the 222 classes of four-variable functions (under input permutation / input negation / output negation) against ALL 65 536 functions in both operand positions under and / or (every connective in thorough). Thorough tier additionally: COMPLETE operand pairs over F_4 (2^16 x 2^16) for and / or (the connectives with a recursion of their own; VCHECK_PAIRS4_OPS=all for all seven), result compared structurally with canon of the pointwise table; every unary/binary connective on all of F_3 in a BDDEnv<NamedSymbol> whose ids agree in their low 32 bits (both tiers). distinct = distinct (route or operator, operands)",
     assumptions: &["canon() and the ordered/reduced walker in harness/src/robdd.rs are the trusted definition of 'reduced ordered'", "k <= 4 variables; orders with gaps (ids 0,3,4,9 / 1,4,6) and NamedSymbol orders"],
     max_shards: 64,
     run,
@@ -295,6 +295,8 @@ fn run(ctx: &mut Ctx) {
         }
     }
     sweep_named_wide(ctx, ORACLE, TAG);
+    // every shape of four-variable function against all of F_4, both operand positions
+    reps4_sweep(ctx, ORACLE, TAG, if ctx.thorough() { &crate::refl::ALL_BINS } else { &[crate::refl::Bin::And, crate::refl::Bin::Or] });
     sweep_family6(ctx, ORACLE, TAG);
     if ctx.thorough() {
         // complete F_4 x F_4 for every connective of the API: the result must BE the canonical diagram
